@@ -327,6 +327,13 @@ theorem C03_moveHome_total_wf (S : Segmenter) (U : UData) (lb : LB) (h : WF lb) 
   · exact ⟨true, { lb with pos := e }, by simp [LM.bind_apply, LM.ro, he, LM.get, hc, LM.setPos], hb, rfl⟩
   · exact ⟨false, lb, by simp [LM.bind_apply, LM.ro, he, LM.get, hc], h, rfl⟩
 
+/-- `move_to_first_print` (vi `^`, D46): total, boundary, text untouched -/
+theorem C03_moveToFirstPrint_total_wf (S : Segmenter) (U : UData) (lb : LB) (h : WF lb) :
+    ∃ r lb', LB.moveToFirstPrint S U lb = .ok (r, lb', []) ∧ WF lb' ∧ lb'.buf = lb.buf := by
+  obtain ⟨p, hp, hpb⟩ := firstPrint_ok S U lb h
+  exact ⟨p != lb.pos, { lb with pos := p },
+    by simp [LB.moveToFirstPrint, LM.bind_apply, LM.ro, hp, LM.get, LM.setPos], hpb, rfl⟩
+
 /-- `move_end`: total, boundary, text untouched -/
 theorem C03_moveEnd_total_wf (S : Segmenter) (U : UData) (lb : LB) (h : WF lb) :
     ∃ r lb', LB.moveEnd S U lb = .ok (r, lb', []) ∧ WF lb' ∧ lb'.buf = lb.buf := by
@@ -686,34 +693,14 @@ theorem C03_copy_total (S : Segmenter) (U : UData) (mvt : Movement) (lb : LB) (h
         obtain ⟨y, hy⟩ := slice_ok hpb h hple
         exact ⟨some y, by simp [LB.copy, hemp', hr, hy, bind, Except.bind, pure, Except.pure]⟩
   | viFirstPrint =>
-    by_cases he : (lb.pos == 0) = true
-    · exact ⟨none, by simp [LB.copy, hemp', he]; rfl⟩
-    · -- the first printable position is computed from offset 0
-      have hpos : 0 < lb.pos := by
-        have : lb.pos ≠ 0 := by simpa using he
-        omega
-      have hwf0 : WF { lb with pos := 0 } := isBoundary_zero _
-      obtain ⟨r, hr, hpr⟩ := nextWordPosR_ok_all S U { lb with pos := 0 } .start .big 1 false hwf0
-      have hr' : LB.nextWordPos S U lb 0 .start .big 1 = .ok r := hr
-      obtain ⟨y0, hy0⟩ := slice_ok (isBoundary_zero lb.buf) h (Nat.zero_le _)
-      cases hh : lb.buf.head? with
-      | none =>
-        exact ⟨some y0, by simp [LB.copy, hemp', he, hh, hpos, hy0, bind, Except.bind, pure, Except.pure]⟩
-      | some c =>
-        by_cases hws : U.ws c = true
-        · cases r with
-          | none =>
-            exact ⟨none, by simp [LB.copy, hemp', he, hh, hws, hr', bind, Except.bind, pure, Except.pure]⟩
-          | some p =>
-            have hpb : IsBoundary lb.buf p := (hpr p rfl).1
-            by_cases h1 : p < lb.pos
-            · obtain ⟨y, hy⟩ := slice_ok hpb h (by omega)
-              exact ⟨some y, by simp [LB.copy, hemp', he, hh, hws, hr', h1, hy, bind, Except.bind, pure, Except.pure]⟩
-            · by_cases h2 : lb.pos < p
-              · obtain ⟨y, hy⟩ := slice_ok h hpb (by omega)
-                exact ⟨some y, by simp [LB.copy, hemp', he, hh, hws, hr', h1, h2, hy, bind, Except.bind, pure, Except.pure]⟩
-              · exact ⟨none, by simp [LB.copy, hemp', he, hh, hws, hr', h1, h2, bind, Except.bind, pure, Except.pure]⟩
-        · exact ⟨some y0, by simp [LB.copy, hemp', he, hh, hws, hpos, hy0, bind, Except.bind, pure, Except.pure]⟩
+    obtain ⟨p, hp, hpb⟩ := firstPrint_ok S U lb h
+    by_cases h1 : p < lb.pos
+    · obtain ⟨y, hy⟩ := slice_ok hpb h (by omega)
+      exact ⟨some y, by simp [LB.copy, hemp', hp, h1, hy, bind, Except.bind, pure, Except.pure]⟩
+    · by_cases h2 : lb.pos < p
+      · obtain ⟨y, hy⟩ := slice_ok h hpb (by omega)
+        exact ⟨some y, by simp [LB.copy, hemp', hp, h1, h2, hy, bind, Except.bind, pure, Except.pure]⟩
+      · exact ⟨none, by simp [LB.copy, hemp', hp, h1, h2, bind, Except.bind, pure, Except.pure]⟩
 
 /-- `move_to_line_up` (after the D23 repair): total for every count and prompt column; the cursor
     lands on a boundary; text untouched -/
@@ -1009,8 +996,24 @@ theorem C03_kill_total_wf (S : Segmenter) (U : UData) (mvt : Movement) (lb : LB)
     have : LB.kill S U (.forwardWord n a d) = killWrap (LB.deleteWord S U a d n) := rfl
     rw [this]; exact killWrap_ok (C03_deleteWord_total_wf S U a d n lb h)
   | viFirstPrint =>
-    have : LB.kill S U .viFirstPrint = killWrap (pure false) := rfl
-    rw [this]; exact killWrap_ok ⟨false, lb, [], rfl, h⟩
+    obtain ⟨p, hp, hpb⟩ := firstPrint_ok S U lb h
+    by_cases h1 : p < lb.pos
+    · obtain ⟨x, y, z, hd, hbuf, hx, _⟩ := drain_ok .backward hpb h (by omega)
+      refine ⟨true, { lb with buf := x ++ z, pos := p }, [.startKill] ++ ([.del p y .backward] ++ [.stopKill]), ?_, ?_⟩
+      · have hne : (p != lb.pos) = true := by simp; omega
+        simp [LB.kill, LM.bind_apply, LM.notify, LM.ro, hp, LM.get, h1, hd, LM.setPos, hne]
+      · show IsBoundary (x ++ z) p
+        rw [hx]; exact isBoundary_mid x z
+    · by_cases h2 : lb.pos < p
+      · obtain ⟨x, y, z, hd, hbuf, hx, _⟩ := drain_ok .forward h hpb (by omega)
+        refine ⟨true, { lb with buf := x ++ z }, [.startKill] ++ ([.del lb.pos y .forward] ++ [.stopKill]), ?_, ?_⟩
+        · have hne : (p != lb.pos) = true := by simp; omega
+          simp [LB.kill, LM.bind_apply, LM.notify, LM.ro, hp, LM.get, h1, h2, hd, hne]
+        · show IsBoundary (x ++ z) lb.pos
+          rw [hx]; exact isBoundary_mid x z
+      · have hne : (p != lb.pos) = false := by simp; omega
+        exact ⟨false, lb, [.startKill, .stopKill],
+          by simp [LB.kill, LM.bind_apply, LM.notify, LM.ro, hp, LM.get, h1, h2, hne], h⟩
   | endOfBuffer =>
     have : LB.kill S U .endOfBuffer = killWrap (LB.killBuffer S U) := rfl
     rw [this]; exact killWrap_ok (C03_killBuffer_total_wf S U lb h)
@@ -1135,7 +1138,7 @@ def C03_op_total_wf_replay_statement : Prop :=
     `C03_insertStr_counterexample`) -/
 def C03_opCovered : Op → Bool
   | .update _ _ | .insert _ _ | .yank _ _ | .moveBackward _ | .moveForward _ | .moveBufferStart
-  | .moveBufferEnd | .moveHome | .moveEnd | .isEndOfInput | .delete _ | .backspace _ | .killLine
+  | .moveBufferEnd | .moveHome | .moveEnd | .moveToFirstPrint | .isEndOfInput | .delete _ | .backspace _ | .killLine
   | .killBuffer | .discardLine | .discardBuffer | .moveToPrevWord _ _ | .deletePrevWord _ _
   | .replace _ _ _ | .deleteRange _ _ | .setPos _ | .nextPos _ | .moveTo _ _ | .deleteTo _ _
   | .yankPop _ _ | .moveToNextWord _ _ _ | .deleteWord _ _ _ | .kill _ | .copy _
@@ -1188,6 +1191,9 @@ theorem C03_covered_total_wf (S : Segmenter) (U : UData) (op : Op) (lb : LB) (h 
     exact ⟨_, lb', _, C03_run_ok_of h1, h2⟩
   case moveHome =>
     obtain ⟨r, lb', h1, h2, _⟩ := C03_moveHome_total_wf S U lb h
+    exact ⟨_, lb', _, C03_run_ok_of h1, h2⟩
+  case moveToFirstPrint =>
+    obtain ⟨r, lb', h1, h2, _⟩ := C03_moveToFirstPrint_total_wf S U lb h
     exact ⟨_, lb', _, C03_run_ok_of h1, h2⟩
   case moveEnd =>
     obtain ⟨r, lb', h1, h2, _⟩ := C03_moveEnd_total_wf S U lb h
